@@ -3,6 +3,7 @@ CONSTANTS
   Bulks = {1, 2, 3, 4}
   MaxCrash = 2
   Fixed = TRUE
+  SkipFsync = FALSE
 VIEW View
 INVARIANT NoForeignBytes
 INVARIANT AckedDurable
